@@ -3,6 +3,7 @@ package props
 import (
 	"fmt"
 	"go/ast"
+	"go/types"
 
 	"mpcverif/internal/dispatch"
 	"mpcverif/internal/load"
@@ -53,8 +54,15 @@ func C05native(p *load.Program, run *report.Run) {
 			if !ok || target != "" || len(as.Rhs) != 1 {
 				return true
 			}
-			if c, ok := as.Rhs[0].(*ast.CallExpr); ok && cx(c.Fun) == "append" && len(c.Args) >= 1 && cx(c.Args[0]) == cx(as.Lhs[0]) {
-				target = cx(as.Lhs[0])
+			// X = append(X, …), or X = helper(X, …) with a helper of the package that appends for it
+			if c, ok := as.Rhs[0].(*ast.CallExpr); ok && len(c.Args) >= 1 && cx(c.Args[0]) == cx(as.Lhs[0]) {
+				if cx(c.Fun) == "append" {
+					target = cx(as.Lhs[0])
+				} else if id, ok := c.Fun.(*ast.Ident); ok {
+					if fn, ok := pkg.TypesInfo.Uses[id].(*types.Func); ok && fn.Pkg() == pkg.Types {
+						target = cx(as.Lhs[0])
+					}
+				}
 			}
 			return true
 		})
@@ -82,12 +90,19 @@ func C05native(p *load.Program, run *report.Run) {
 						w.set(target, []wv{}, true)
 						w.set("iIDs", []wv{}, true)
 						w.set("oIDs", []wv{}, true)
-						w.hook = func(name string, c *ast.CallExpr) (wv, bool) {
-							if name == "ID" && len(c.Args) == 0 {
-								return w.expr(c.Fun.(*ast.SelectorExpr).X), true
+						var mk func(x *wInterp) func(name string, c *ast.CallExpr) (wv, bool)
+						mk = func(x *wInterp) func(name string, c *ast.CallExpr) (wv, bool) {
+							return func(name string, c *ast.CallExpr) (wv, bool) {
+								if name == "ID" && len(c.Args) == 0 {
+									return x.expr(c.Fun.(*ast.SelectorExpr).X), true
+								}
+								if _, isIdent := c.Fun.(*ast.Ident); isIdent {
+									return peerHelper(pkg, x, c, mk)
+								}
+								return nil, false
 							}
-							return nil, false
 						}
+						w.hook = mk(w)
 						for _, st := range arm.Body {
 							// stop at the first statement that leaves the part the model covers
 							mentions := false
